@@ -22,7 +22,7 @@ func init() {
 	Registry["C06"] = Spec{
 		Fn:           c06,
 		Level:        "exploration",
-		Rule:         "inputs = structure-aware mutations of valid library encodings (blocks of every catalogue column and random compositions; every protocol message): every bit flipped and every byte replaced by {00,01,7f,80,ff} at every offset of small encodings; a uvarint and a 64-bit field overwritten at every offset with {0,1,cap-1,cap,cap+1,2^31,2^32,2^63-1,2^64-1} and smaller/non-monotonic neighbours; splices, truncation+garbage, duplication; decoded through typed, boxed and inferred targets and every message decoder. Two regimes: 'flood' (hook caps lowered to 2^16 rows / 2^20 string bytes; arbitrary mutations; allocation delta <= 64 MiB + 16*len) and 'cap' (hook inert; only fields set just beyond and far beyond the library's caps at known field positions; must be rejected with an allocation delta <= 4 MiB). Oracle: no panic (also in Error()/%+v of the returned error), no worker abort, no reads continuing after EOF, and on success every column reports the block's rows and every Row(i)/RowKV(i) below it works. Non-trivial = the decoder consumed at least the block header; distinct = (target, mutation kind, offset class, outcome class)",
+		Rule:         "inputs = structure-aware mutations of valid library encodings (blocks of every catalogue column and random compositions; every protocol message): every bit flipped and every byte replaced by {00,01,7f,80,ff} at every offset of small encodings; a uvarint and a 64-bit field overwritten at every offset with {0,1,cap-1,cap,cap+1,2^31,2^32,2^63-1,2^64-1} and smaller/non-monotonic neighbours; splices, truncation+garbage, duplication; the column type name in the block header replaced by ~130 malformed names (parentheses reversed / unbalanced / emptied, parameters cut or replaced by garbage, bad Enum / DateTime64 / Decimal / FixedString parameters, nesting 50 and 2000 deep); decoded through typed, boxed and inferred targets and every message decoder. Two regimes: 'flood' (hook caps lowered to 2^16 rows / 2^20 string bytes; arbitrary mutations; allocation delta <= 64 MiB + 16*len) and 'cap' (hook inert; only fields set just beyond and far beyond the library's caps at known field positions; must be rejected with an allocation delta <= 4 MiB). Oracle: no panic (also in Error()/%+v of the returned error), no worker abort, no reads continuing after EOF, and on success every column reports the block's rows and every Row(i)/RowKV(i) below it works. Non-trivial = the decoder consumed at least the block header; distinct = (target, mutation kind, offset class, outcome class)",
 		Assumptions:  []string{"allocation measured with runtime/metrics /gc/heap/allocs:bytes (shard workers are single-threaded)", "by-design allocations within the library's own caps (e.g. 100M rows x element size) are avoided in the flood regime by the tag-guarded extra caps"},
 		MinDistinct:  1000,
 		TimeoutQuick: 15 * time.Minute,
@@ -256,6 +256,57 @@ func c06Mutants(rng *rand.Rand, enc, other []byte, quick bool, emit func(kind st
 	}
 }
 
+var c06FixedNames = []string{"", "(", ")", "()", ")(", "(()", "())", "Array", "Array()", "Array(", "Array)", "Array)(", "A)rray(", "Array(()", "Array(Array()",
+	"Nullable", "Nullable()", "Nullable(Nullable(UInt8))", "Nullable(Array(UInt8))", "LowCardinality()", "LowCardinality(Nullable())", "LowCardinality(Array(String))",
+	"Map", "Map()", "Map(,)", "Map(String)", "Map(String,)", "Map(,String)", "Map)(", "Map(String, String, String)", "Tuple", "Tuple()", "Tuple(,)", "Tuple( )", "Tuple(a)", "Tuple(a b c)",
+	"Enum8", "Enum8()", "Enum8('a')", "Enum8('a'=)", "Enum8(=1)", "Enum8('a' = 999)", "Enum8('a' = 1, 'a' = 1)", "Enum8('a = 1)", "Enum8(' = 1)", "Enum16('a' = 99999)", "Enum8('\\' = 1)", "Enum8)'a' = 1(",
+	"DateTime(", "DateTime()", "DateTime('", "DateTime('')", "DateTime('No/Such_Zone')", "DateTime)'UTC'(", "DateTime64", "DateTime64()", "DateTime64(x)", "DateTime64(-1)", "DateTime64(10)", "DateTime64(99999999999999999999)",
+	"DateTime64(3, )", "DateTime64(3,", "DateTime64(3, 'No/Such_Zone')", "DateTime64(3, UTC)", "DateTime64)3, 'UTC'(", "FixedString", "FixedString()", "FixedString(-1)", "FixedString(0)", "FixedString(x)",
+	"FixedString(99999999999999999999)", "FixedString(2147483648)", "Decimal", "Decimal()", "Decimal(,)", "Decimal(0, 0)", "Decimal(77, 1)", "Decimal(5, 9)", "Decimal(9)", "Decimal(a, b)", "Decimal32()", "Decimal32(x)", "Decimal256(99)",
+	"Interval", "IntervalFoo", "Point(", "Nothing(", "UInt8(", "UInt8()", "UInt8)", "String(1)", "Int128(", "\x00", "Array(\x00)", "Array(\xff\xfe)", "Nullable(\x80)"}
+
+// c06HostileTypeNames: malformed variants of a valid type name plus the fixed list.
+func c06HostileTypeNames(rng *rand.Rand, ts string) []string {
+	out := append([]string(nil), c06FixedNames...)
+	if i, j := strings.IndexByte(ts, '('), strings.LastIndexByte(ts, ')'); i >= 0 && j > i {
+		b := []byte(ts)
+		b[i], b[j] = ')', '('
+		out = append(out, string(b))                 // first ( and last ) exchanged
+		out = append(out, ts[:j], ts[:i]+ts[i+1:])    // unbalanced
+		out = append(out, ts+")", ts[:i+1]+"("+ts[i+1:]) // one too many
+		out = append(out, ts[:i]+"()", ts[:i]+")(", ts[:i]+"(,)", ts[:i]+"( )")
+		swap := strings.NewReplacer("(", ")", ")", "(").Replace(ts)
+		out = append(out, swap) // every parenthesis reversed
+		g := make([]byte, 1+rng.Intn(12))
+		rng.Read(g)
+		out = append(out, ts[:i+1]+string(g)+")", ts[:i+1]+string(g))
+		// parameters cut at a random position
+		if j > i+1 {
+			c := i + 1 + rng.Intn(j-i-1)
+			out = append(out, ts[:c]+")", ts[:c])
+		}
+	} else {
+		out = append(out, ts+"(", ts+")", ts+"()", ts+")(", ts+"(1)")
+	}
+	// nesting depth
+	for _, d := range []int{50, 2000} {
+		out = append(out, strings.Repeat("Array(", d)+"UInt8"+strings.Repeat(")", d), strings.Repeat("Nullable(", d)+ts, strings.Repeat("Array(", d))
+	}
+	return out
+}
+
+func c06NameClass(name string) string {
+	switch {
+	case len(name) > 200:
+		return "deep"
+	case strings.IndexByte(name, ')') >= 0 && strings.IndexByte(name, ')') < strings.IndexByte(name, '('):
+		return "reversed"
+	case strings.Count(name, "(") != strings.Count(name, ")"):
+		return "unbalanced"
+	}
+	return "balanced:" + name
+}
+
 func offClass(off, n int) int {
 	switch {
 	case off < 8:
@@ -304,6 +355,23 @@ func c06(r *core.Run) {
 			outcomes[out]++
 			r.NonTrivial(typeSite(bc.T), strings.SplitN(bc.Kind, ":", 2)[0], kind, dec, out)
 		})
+		// hostile type names in the column header (the name a server sends is not trusted): the
+		// valid name with its parentheses reversed, unbalanced or emptied, parameters replaced by
+		// garbage, and a fixed list of malformed names; through typed targets (whose Infer parses
+		// the name) and through automatic inference
+		needle := append(putUvarint(uint64(len(bc.TS))), bc.TS...)
+		if at := bytes.Index(bc.Bytes, needle); at >= 0 {
+			for _, name := range c06HostileTypeNames(rng, bc.TS) {
+				data := append(append(append([]byte(nil), bc.Bytes[:at]...), append(putUvarint(uint64(len(name))), name...)...), bc.Bytes[at+len(needle):]...)
+				for _, dec := range []string{"typed", "auto"} {
+					r.CaseLog(fmt.Sprintf("%d flood type-name %s %q", ci, dec, clipN([]byte(name), 200)))
+					out := c06Decode(r, "flood", "type-name", bc, data, dec, limit)
+					outcomes[out]++
+					r.NonTrivial("type-name", typeSite(bc.T), strings.SplitN(bc.Kind, ":", 2)[0], dec, out, c06NameClass(name))
+					r.Count("hostile_type_names", 1)
+				}
+			}
+		}
 		prev = bc.Bytes
 		for o, c := range outcomes {
 			r.Count("flood_outcome_"+o, int64(c))
